@@ -15,6 +15,8 @@ def main():
     if not os.path.exists(WT):
         rc, out = sh("git -C /repo worktree add -q --detach %s HEAD" % WT, cwd="/")
         assert rc == 0, out
+    else:
+        sh("git checkout -q -- . ; git checkout -q --detach %s" % subprocess.run("git -C /repo rev-parse HEAD", shell=True, stdout=subprocess.PIPE, text=True).stdout.strip())
     for item in sys.argv[1:]:
         P, m = item.split("/")
         src = "/tmp/mut/out/%s" % P
@@ -22,6 +24,8 @@ def main():
         meta = json.load(open(metaf)) if os.path.exists(metaf) else {}
         sh("git checkout -q -- . && rm -rf tests")
         rc, out = sh("git apply %s" % patch)
+        if rc != 0:
+            rc, out = sh("git apply --3way %s && git reset -q" % patch)
         if rc != 0:
             print(item, "PATCH FAILS", out); continue
         rc_suite, out_suite = sh("cargo test --offline --lib 2>&1")
